@@ -146,6 +146,9 @@ var ledgerSpecs = []ledgerSpec{
 			{"drain-to-zero+two-truncations", ledger.Cfg{Nodes: []string{"G"}, Supply: sp(10, 0), Menu: []ledger.TxSpec{tx("tz", "A", "B", 6, 0), cf("c4"), cf("c5"), cf("c6")}, Hidden: []ledger.TxSpec{t1}, Truncate: true, Prefix: drain, Props: only("C07")}, d, 0, 0},
 			{"unmerged-branches", ledger.Cfg{Nodes: []string{"G", "N1"}, Supply: sp(10, 0), Menu: []ledger.TxSpec{t1, t3}, Hidden: []ledger.TxSpec{t7}, MaxProposeNodes: 1, Truncate: true, Prefix: unmerged, Props: only("C07")}, d - 2, 0, 0},
 			{"chain+side-branch", ledger.Cfg{Nodes: []string{"G"}, Supply: sp(10, 0), Menu: []ledger.TxSpec{t1, t3, t7, t4}, Crafted: []ledger.TxSpec{tx("side", "R", "B", 1, 0)}, Truncate: true, Props: only("C07")}, d, 0, 0},
+			// a truncation interrupted by its context (after 1..6 polls) followed by further truncations
+			{"interrupted-truncation", ledger.Cfg{Nodes: []string{"G"}, Supply: sp(10, 0), Menu: []ledger.TxSpec{t3, cf("c4")}, Hidden: []ledger.TxSpec{t1}, Truncate: true, TruncCancel: []int{1, 2, 3, 4, 5, 6},
+				Prefix: []string{"P:0:t1", "P:0:c1", "P:0:c2", "P:0:c3"}, Props: only("C07")}, 3, 0, 0},
 			{"two-nodes", ledger.Cfg{Nodes: []string{"G", "N1"}, Supply: sp(10, 0), Menu: []ledger.TxSpec{t1, t3, t7}, Truncate: true, MaxProposeNodes: 1, Props: only("C07")}, d, 0, 0},
 		}
 	}},
@@ -247,6 +250,13 @@ func ledgerMain(s ledgerSpec, args []string) int {
 		sched.WorkerMain(c03Scenarios())
 		return 0
 	}
+	if s.id == "C06" && fs.NArg() >= 1 && fs.Arg(0) == "schedworker" {
+		sched.WorkerMain(c06Scenarios())
+		return 0
+	}
+	if s.id == "C06" && *replay != "" && isSchedReplay(*replay) {
+		return sched.ReplayFile("C06", c06Scenarios(), *replay)
+	}
 	if s.id == "C07" && fs.NArg() >= 1 && fs.Arg(0) == "schedworker" {
 		sched.WorkerMain(c07Scenarios())
 		return 0
@@ -317,6 +327,13 @@ func ledgerMain(s ledgerSpec, args []string) int {
 	space.FillEvidence(rep, total)
 	if s.id == "C03" && *run == "" {
 		ex, div := c03SchedRun(rep, *procs)
+		if !ex {
+			rep.Set("exhaustive", false)
+		}
+		total.Diverged += div
+	}
+	if s.id == "C06" && *run == "" {
+		ex, div := c06SchedRun(rep, *procs)
 		if !ex {
 			rep.Set("exhaustive", false)
 		}
